@@ -91,7 +91,8 @@ def check_expressions(stats, ma, mb, mc, kind, sub="expr"):
 
 
 def deriv_pairs(stats, a, b, same, case):
-    for var_a, var_b in (("x", "x"), ("x", "y"), ("x", lib_variable("x"))):
+    for var_a, var_b in (("x", "x"), ("x", "y"), ("x", lib_variable("x")), ("x", "x_1"), ("ab", "ac"), ("ab", "cb"),
+                         ("x", "X"), ("x1", lib_variable("x2"))):
         vb = var_b if isinstance(var_b, str) else var_b
         name_b = vb if isinstance(vb, str) else vb.name
         expect_pair(stats, lib.Partial(a, var_a), lib.Partial(b, vb, compute_early=False), same and var_a == name_b,
